@@ -39,7 +39,8 @@ RULE = ("C03's query stream over nasty-name documents; every match x {test, test
 ASSUMPTIONS = ["oracle = 10-line get/set/delete by parts on a deep copy; equality is strict JSON equality with str keys only"]
 
 NEW = {"new": [True, 1]}
-INTISH = ["0", "1", "2", "10", "-1", "+1", " 1", "01", "-0", "1_0", "１", "1.0", "1e0", "00", "1\u0663", "13", "1\uff11", "11"]
+INTISH = ["0", "1", "2", "10", "-1", "+1", " 1", "01", "-0", "1_0", "１", "1.0", "1e0", "00", "1\u0663", "13", "1\uff11", "11",
+          "9007199254740993", "-9007199254740993", "18446744073709551616"]  # beyond the index limit: still just member names
 
 
 def set_by_parts(doc, parts, value):
@@ -126,12 +127,23 @@ def judge(stats: Stats, text, doc, origin):
             stats.fail("replace:wrong-document", c, "replace(%r) on %s gave %s, expected %s" % (str(ptr), short(doc, 160), short(r, 200), short(want, 200)))
         # the same through the pointer's text (C03: the text parsed again denotes the same node)
         want = set_by_parts(copy.deepcopy(doc), parts, copy.deepcopy(NEW))
-        k, r = apply(stats, c, "replace-by-text", JSONPatch(unicode_escape=False).replace(str(ptr), copy.deepcopy(NEW)), copy.deepcopy(doc))
-        if k == "err":
+        # a member name that is a decimal integer beyond +-(2**53-1) cannot be written as pointer *text* (the C04 known finding,
+        # listed there); the pointer object a match hands out must work all the same, so only the text route is set aside and counted
+        import re as _re
+        if any(isinstance(p_, str) and _re.fullmatch(r"-?(0|[1-9][0-9]*)", p_) and abs(int(p_)) > 2**53 - 1 for p_ in parts):
+            stats.excluded["replace-by-text:name-beyond-index-limit(C04 known finding)"] += 1
+            k, r = "skip", None
+            beyond = True
+        else:
+            beyond = False
+            k, r = apply(stats, c, "replace-by-text", JSONPatch(unicode_escape=False).replace(str(ptr), copy.deepcopy(NEW)), copy.deepcopy(doc))
+        if k == "skip":
+            pass
+        elif k == "err":
             stats.fail("replace-by-text:raised:%s" % type(r).__name__, c, "replace(%r as text) on %s raised %s: %s" % (str(ptr), short(doc, 160), type(r).__name__, r))
         elif is_cyclic(r) or not jeq(r, want):
             stats.fail("replace-by-text:wrong-document", c, "replace(%r as text) on %s gave %s, expected %s" % (str(ptr), short(doc, 160), short(r, 200), short(want, 200)))
-        if parts:
+        if parts and not beyond:
             want = del_by_parts(copy.deepcopy(doc), parts)
             k, r = apply(stats, c, "remove-by-text", JSONPatch(unicode_escape=False).remove(str(ptr)), copy.deepcopy(doc))
             if k == "err":
@@ -149,7 +161,7 @@ def judge(stats: Stats, text, doc, origin):
         # one pointer object as the target of several operations of one patch, with a structural edit in between: every operation
         # addresses the document as the earlier operations left it (RFC 6902 applies operations in sequence)
         ks = [k for k, x in enumerate(parts) if isinstance(x, int)]
-        if ks:
+        if ks and not beyond:
             k = ks[0]
             arr_text = P6901.encode([str(x) for x in parts[:k]])
             arr = walk(doc, parts[:k])
